@@ -115,6 +115,12 @@ func tryFastCompare(expression string) *fastCompare {
 		if err != nil {
 			return nil
 		}
+		// The shortcut compares as float64. A literal of magnitude 2^53 or more
+		// may not be exactly representable, while expr-lang compares integers
+		// exactly, so leave it to the general path.
+		if n >= maxExactFloatInt || n <= -maxExactFloatInt {
+			return nil
+		}
 		return &fastCompare{field: m[1], op: m[2], numLit: n}
 	}
 	if m := fastFieldOpStr.FindStringSubmatch(expression); m != nil {
@@ -241,6 +247,14 @@ func tryFastCompound(expression string) *fastCompound {
 	return &fastCompound{op: op, parts: compares}
 }
 
+// maxExactFloatInt is 2^53: every integer of smaller magnitude converts to
+// float64 without rounding.
+const maxExactFloatInt = 1 << 53
+
+// toFloat64Fast converts a numeric value for the float64 shortcut. Integers of
+// magnitude 2^53 or more are not handled (ok==false): the conversion would
+// round them, and the decision must be the one expr-lang makes on the exact
+// value.
 func toFloat64Fast(v any) (float64, bool) {
 	switch x := v.(type) {
 	case float64:
@@ -248,19 +262,33 @@ func toFloat64Fast(v any) (float64, bool) {
 	case float32:
 		return float64(x), true
 	case int:
-		return float64(x), true
+		return int64ToFloat64Fast(int64(x))
 	case int64:
-		return float64(x), true
+		return int64ToFloat64Fast(x)
 	case int32:
 		return float64(x), true
 	case uint:
-		return float64(x), true
+		return uint64ToFloat64Fast(uint64(x))
 	case uint64:
-		return float64(x), true
+		return uint64ToFloat64Fast(x)
 	case uint32:
 		return float64(x), true
 	}
 	return 0, false
+}
+
+func int64ToFloat64Fast(x int64) (float64, bool) {
+	if x >= maxExactFloatInt || x <= -maxExactFloatInt {
+		return 0, false
+	}
+	return float64(x), true
+}
+
+func uint64ToFloat64Fast(x uint64) (float64, bool) {
+	if x >= maxExactFloatInt {
+		return 0, false
+	}
+	return float64(x), true
 }
 
 func compareNum(a float64, op string, b float64) bool {
